@@ -46,27 +46,13 @@ End AssocLemmas.
 (* the backing storage an operation may modify *)
 Definition target (c : cfg) (o : op) : option (nat * bytes) :=
   match o with
-  | CreateBucket b | DeleteBucket b | Put b _ _ | Del b _ => Some (route c b, b)
-  | Copy _ _ db _ => Some (route c db, db)
-  | Head _ _ | ListBuckets => None
+  | CreateBucket b _ | DeleteBucket b | Put b _ _ | Del b _ => Some (route c b, b)
+  | Copy _ _ db _ _ | PartCopy _ _ db _ _ => Some (route c db, db)
+  | Head _ _ _ | ListBuckets => None
   end.
 
 Lemma get_store_upd_other f w i j : i <> j -> get_store (upd_nth i f w) j = get_store w j.
 Proof. intros H. unfold get_store. apply nth_upd_other. exact H. Qed.
-
-Lemma step_other_storage c w o j :
-  (forall i b, target c o = Some (i, b) -> j <> i) -> get_store (fst (step c w o)) j = get_store w j.
-Proof.
-  intros H. destruct o as [b|b|b k ob|b k|b k|sb sk db dk|]; cbn [step target] in *.
-  - destruct (aget b (get_store w (route c b))); cbn; [reflexivity|]. apply get_store_upd_other. intros E. exact (H _ _ eq_refl (eq_sym E)).
-  - destruct (aget b (get_store w (route c b))) as [[|x l]|]; cbn; try reflexivity. apply get_store_upd_other. intros E. exact (H _ _ eq_refl (eq_sym E)).
-  - destruct (put_obj (get_store w (route c b)) b k ob); cbn; [|reflexivity]. apply get_store_upd_other. intros E. exact (H _ _ eq_refl (eq_sym E)).
-  - destruct (aget b (get_store w (route c b))); cbn; [|reflexivity]. apply get_store_upd_other. intros E. exact (H _ _ eq_refl (eq_sym E)).
-  - destruct (find_obj (get_store w (route c b)) b k); reflexivity.
-  - destruct (find_obj (get_store w (route c sb)) sb sk); cbn; [reflexivity|].
-    destruct (put_obj _ db dk _); cbn; [|reflexivity]. apply get_store_upd_other. intros E. exact (H _ _ eq_refl (eq_sym E)).
-  - reflexivity.
-Qed.
 
 Lemma get_store_upd_same f w i : get_store (upd_nth i f w) i = if i <? length w then f (get_store w i) else get_store w i.
 Proof.
@@ -75,30 +61,77 @@ Proof.
   - apply Nat.ltb_ge in E. rewrite upd_out by exact E. reflexivity.
 Qed.
 
+Lemma step_other_storage c now w o j :
+  (forall i b, target c o = Some (i, b) -> j <> i) -> get_store (fst (step c now w o)) j = get_store w j.
+Proof.
+  intros H.
+  assert (U : forall b f, target c o = Some (route c b, b) -> get_store (upd_nth (route c b) f w) j = get_store w j).
+  { intros b f T. apply get_store_upd_other. intros E. exact (H _ _ T (eq_sym E)). }
+  destruct o as [b v|b|b k ob|b k|b k vid|sb sk db dk co|sb sk db dk co|]; cbn [step target] in *.
+  - destruct (aget b (get_store w (route c b))); cbn [fst]; [reflexivity | apply U; reflexivity].
+  - destruct (aget b (get_store w (route c b))) as [bk|]; cbn [fst]; [|reflexivity].
+    destruct (bucket_empty bk); cbn [fst]; [apply U; reflexivity | reflexivity].
+  - destruct (put_obj (get_store w (route c b)) b k ob); cbn [fst]; [apply U; reflexivity | reflexivity].
+  - destruct (aget b (get_store w (route c b))); cbn [fst]; [apply U; reflexivity | reflexivity].
+  - destruct (find_version (get_store w (route c b)) b k vid) as [r|[ob v]]; reflexivity.
+  - destruct ((if same_instance c sb db then inner_copy else cross_copy) _ _ sb sk db dk co false now) as [[s'|] r]; cbn [fst];
+      [apply U; reflexivity | reflexivity].
+  - destruct (aget db (get_store w (route c db))); cbn [fst]; [|reflexivity].
+    destruct ((if same_instance c sb db then inner_copy else cross_copy) _ _ sb sk db dk co true now) as [[s'|] r]; cbn [fst];
+      [apply U; reflexivity | reflexivity].
+  - reflexivity.
+Qed.
+
 Lemma put_obj_other s b k ob s' b2 : put_obj s b k ob = Some s' -> b2 <> b -> aget b2 s' = aget b2 s.
 Proof.
   unfold put_obj. destruct (aget b s); [|discriminate]. intros E N. inversion E; subst. apply aget_aset_other. exact N.
 Qed.
 
+Lemma cross_copy_other ss ds sb sk db dk co mp now s' r b2 :
+  cross_copy ss ds sb sk db dk co mp now = (Some s', r) -> b2 <> db -> aget b2 s' = aget b2 ds.
+Proof.
+  unfold cross_copy. destruct (find_version ss sb sk (co_vid co)) as [x|[src v]]; [discriminate|].
+  destruct (negb (cross_conditions (co_conds co) (o_lm src))); [discriminate|].
+  destruct (read_window _ _); [|discriminate]. destruct (put_obj ds db dk _) eqn:E; [|discriminate].
+  intros H N. inversion H; subst. eapply put_obj_other; eassumption.
+Qed.
+Lemma inner_copy_other ss ds sb sk db dk co mp now s' r b2 :
+  inner_copy ss ds sb sk db dk co mp now = (Some s', r) -> b2 <> db -> aget b2 s' = aget b2 ds.
+Proof.
+  unfold inner_copy. destruct (find_version ss sb sk (co_vid co)) as [x|[src v]]; [discriminate|].
+  destruct (inner_conditions (co_conds co) (o_lm src)); [|discriminate].
+  destruct ((if mp then part_window else read_window) _ _); [|discriminate]. destruct (put_obj ds db dk _) eqn:E; [|discriminate].
+  intros H N. inversion H; subst. eapply put_obj_other; eassumption.
+Qed.
+
 (* within the target storage only the named bucket changes *)
-Lemma step_other_bucket c w o i b b2 :
+Lemma step_other_bucket c now w o i b b2 :
   target c o = Some (i, b) -> b2 <> b -> i < length w ->
-  aget b2 (get_store (fst (step c w o)) i) = aget b2 (get_store w i).
+  aget b2 (get_store (fst (step c now w o)) i) = aget b2 (get_store w i).
 Proof.
   intros T N L. apply Nat.ltb_lt in L.
-  destruct o as [b0|b0|b0 k ob|b0 k|b0 k|sb sk db dk|]; cbn [step target] in *; inversion T as [[Hi Hb]]; clear T;
+  destruct o as [b0 v|b0|b0 k ob|b0 k|b0 k vid|sb sk db dk co|sb sk db dk co|]; cbn [step target] in *; inversion T as [[Hi Hb]]; clear T;
     rewrite Hb in *; clear Hb.
   - destruct (aget b (get_store w (route c b))); cbn [fst]; [rewrite Hi; reflexivity|].
     rewrite Hi, get_store_upd_same, L. apply aget_aset_other. exact N.
-  - destruct (aget b (get_store w (route c b))) as [[|x l]|]; cbn [fst]; try (rewrite Hi; reflexivity).
+  - destruct (aget b (get_store w (route c b))) as [bk|]; cbn [fst]; [|rewrite Hi; reflexivity].
+    destruct (bucket_empty bk); cbn [fst]; [|rewrite Hi; reflexivity].
     rewrite Hi, get_store_upd_same, L. apply aget_adel_other. exact N.
   - destruct (put_obj (get_store w (route c b)) b k ob) eqn:E; cbn [fst]; [|rewrite Hi; reflexivity].
     rewrite Hi in *. rewrite get_store_upd_same, L. eapply put_obj_other; eassumption.
   - destruct (aget b (get_store w (route c b))); cbn [fst]; [|rewrite Hi; reflexivity].
     rewrite Hi, get_store_upd_same, L. apply aget_aset_other. exact N.
-  - destruct (find_obj (get_store w (route c sb)) sb sk); cbn [fst]; [rewrite Hi; reflexivity|].
-    destruct (put_obj _ b dk _) eqn:E; cbn [fst]; [|rewrite Hi; reflexivity].
-    rewrite Hi in *. rewrite get_store_upd_same, L. eapply put_obj_other; eassumption.
+  - destruct (same_instance c sb b).
+    + destruct (inner_copy _ _ sb sk b dk co false now) as [[s'|] r] eqn:E; cbn [fst]; [|rewrite Hi; reflexivity].
+      rewrite Hi in *. rewrite get_store_upd_same, L. eapply inner_copy_other; eassumption.
+    + destruct (cross_copy _ _ sb sk b dk co false now) as [[s'|] r] eqn:E; cbn [fst]; [|rewrite Hi; reflexivity].
+      rewrite Hi in *. rewrite get_store_upd_same, L. eapply cross_copy_other; eassumption.
+  - destruct (aget b (get_store w (route c b))); cbn [fst]; [|rewrite Hi; reflexivity].
+    destruct (same_instance c sb b).
+    + destruct (inner_copy _ _ sb sk b dk co true now) as [[s'|] r] eqn:E; cbn [fst]; [|rewrite Hi; reflexivity].
+      rewrite Hi in *. rewrite get_store_upd_same, L. eapply inner_copy_other; eassumption.
+    + destruct (cross_copy _ _ sb sk b dk co true now) as [[s'|] r] eqn:E; cbn [fst]; [|rewrite Hi; reflexivity].
+      rewrite Hi in *. rewrite get_store_upd_same, L. eapply cross_copy_other; eassumption.
 Qed.
 
 (* sorting neither loses nor invents names *)
@@ -109,25 +142,69 @@ Qed.
 Lemma In_isort x l : In x (isort l) <-> In x l.
 Proof. induction l as [|y l IH]; cbn; [tauto|]. rewrite In_ins, IH. intuition. Qed.
 
-Lemma put_obj_get s b k ob s' : put_obj s b k ob = Some s' -> find_obj s' b k = inr ob.
+(* ---------- copy options: the middleware's re-implementation vs the storage's own ---------- *)
+Lemma conditions_agree c lm : cross_conditions c lm = inner_conditions c lm.
 Proof.
-  unfold put_obj, find_obj. destruct (aget b s); [|discriminate]. intros E; inversion E; subst.
-  rewrite aget_aset_same, aget_aset_same. reflexivity.
+  unfold cross_conditions, inner_conditions.
+  destruct (c_im c) as [[]|], (c_inm c) as [[]|], (c_ius c) as [t|], (c_ims c) as [t'|]; cbn;
+    try reflexivity; repeat (match goal with |- context [(?a <? ?b)%Z] => destruct (a <? b)%Z end; cbn); reflexivity.
 Qed.
 
-Lemma put_obj_some_len w i b k ob s' : put_obj (get_store w i) b k ob = Some s' -> i < length w.
+Lemma conditions_second_granularity c lm lm' : trunc_s lm = trunc_s lm' -> cross_conditions c lm = cross_conditions c lm'.
+Proof. intros H. unfold cross_conditions. rewrite H. reflexivity. Qed.
+
+Lemma sizeZ_nonneg d : (0 <= sizeZ d)%Z.
+Proof. unfold sizeZ. lia. Qed.
+
+(* the two ways of opening the window agree except for a ranged part copy of an empty source *)
+Lemma window_agree r size : (0 <= size)%Z -> (size = 0%Z -> is_ranged r = false) -> part_window r size = read_window r size.
 Proof.
-  unfold put_obj, get_store. intros E. destruct (Nat.lt_ge_cases i (length w)) as [H|H]; [exact H|].
-  rewrite nth_overflow in E by exact H. discriminate.
+  intros Hs Hx. unfold part_window, read_window. destruct (norm_window r size) as [[a b]|] eqn:E; [|reflexivity].
+  destruct (reader_ok r (a, b) size) eqn:R; [rewrite orb_true_r; reflexivity|]. rewrite orb_false_r.
+  destruct (covers_part (a, b) size) eqn:C; [|reflexivity]. exfalso.
+  unfold covers_part in C. cbn in C. apply andb_true_iff in C. destruct C as [C1 C2].
+  apply Z.eqb_eq in C1. apply Z.eqb_eq in C2. subst a b.
+  unfold reader_ok in R. cbn in R. apply orb_false_iff in R. destruct R as [R1 R2]. apply Z.ltb_ge in R1.
+  assert (size = 0%Z) by lia. specialize (Hx H). destruct r; cbn in Hx; try discriminate.
+  cbn in R2. subst size. discriminate.
 Qed.
 
-Lemma copy_result c w sb sk db dk ob :
-  find_obj (get_store w (route c sb)) sb sk = inr ob ->
-  snd (step c w (Copy sb sk db dk)) = ROk ->
-  find_obj (get_store (fst (step c w (Copy sb sk db dk))) (route c db)) db dk =
-  inr (if same_instance c sb db then ob else {| o_data := o_data ob; o_c := o_c ob; o_u := false; o_t := false; o_m := false |}).
+Lemma copy_kinds_agree ss ds sb sk db dk co mp now :
+  (forall src v, find_version ss sb sk (co_vid co) = inr (src, v) -> mp = true -> o_data src = [] -> is_ranged (co_range co) = false) ->
+  snd (cross_copy ss ds sb sk db dk co mp now) = snd (inner_copy ss ds sb sk db dk co mp now).
 Proof.
-  intros F. cbn [step]. rewrite F. destruct (put_obj _ db dk _) eqn:E; cbn [fst snd]; [|discriminate]. intros _.
-  rewrite get_store_upd_same. pose proof (put_obj_some_len _ _ _ _ _ _ E) as L. apply Nat.ltb_lt in L. rewrite L.
-  eapply put_obj_get. exact E.
+  intros Hx. unfold cross_copy, inner_copy.
+  destruct (find_version ss sb sk (co_vid co)) as [r|[src v]] eqn:F; [reflexivity|].
+  rewrite conditions_agree. destruct (inner_conditions (co_conds co) (o_lm src)); cbn [negb]; [|reflexivity].
+  assert (W : (if mp then part_window else read_window) (co_range co) (sizeZ (o_data src)) = read_window (co_range co) (sizeZ (o_data src))).
+  { destruct mp; [|reflexivity]. apply window_agree; [apply sizeZ_nonneg|]. intros Z0. apply (Hx src v eq_refl eq_refl).
+    unfold sizeZ in Z0. destruct (o_data src); [reflexivity | cbn in Z0; lia]. }
+  rewrite W. destruct (read_window _ _); [|reflexivity].
+  unfold put_obj. destruct (aget db ds); reflexivity.
 Qed.
+
+Lemma copy_stores_agree ss ds sb sk db dk co mp now :
+  (forall src v, find_version ss sb sk (co_vid co) = inr (src, v) ->
+     (mp = true -> o_data src = [] -> is_ranged (co_range co) = false) /\
+     (mp = true \/ (o_u src = false /\ o_t src = false /\ (o_m src = false \/ is_ranged (co_range co) = true)))) ->
+  cross_copy ss ds sb sk db dk co mp now = inner_copy ss ds sb sk db dk co mp now.
+Proof.
+  intros Hx. unfold cross_copy, inner_copy.
+  destruct (find_version ss sb sk (co_vid co)) as [r|[src v]] eqn:F; [reflexivity|].
+  destruct (Hx src v eq_refl) as [H1 H2].
+  rewrite conditions_agree. destruct (inner_conditions (co_conds co) (o_lm src)); cbn [negb]; [|reflexivity].
+  assert (W : (if mp then part_window else read_window) (co_range co) (sizeZ (o_data src)) = read_window (co_range co) (sizeZ (o_data src))).
+  { destruct mp; [|reflexivity]. apply window_agree; [apply sizeZ_nonneg|]. intros Z0. apply (H1 eq_refl).
+    unfold sizeZ in Z0. destruct (o_data src); [reflexivity | cbn in Z0; lia]. }
+  rewrite W. destruct (read_window _ _) as [win|]; [|reflexivity].
+  assert (O : copied_obj src win (is_ranged (co_range co)) true mp now = copied_obj src win (is_ranged (co_range co)) false mp now).
+  { unfold copied_obj. destruct H2 as [->|(U & T & M)]; [reflexivity|]. rewrite U, T. destruct mp; [reflexivity|]. cbn.
+    destruct M as [M|M]; [rewrite M; destruct (is_ranged (co_range co)); reflexivity | rewrite M; reflexivity]. }
+  rewrite O. reflexivity.
+Qed.
+
+(* content and content type always survive *)
+Lemma copied_obj_content src win rg mp now :
+  o_data (copied_obj src win rg true mp now) = o_data (copied_obj src win rg false mp now) /\
+  o_c (copied_obj src win rg true mp now) = o_c (copied_obj src win rg false mp now).
+Proof. split; reflexivity. Qed.
